@@ -21,8 +21,14 @@ def _nested(tier):
              ("join", ("chain", ("sel", X, K), D0), Z, None), ("sel", ("join", ("chain", X, D0), Z, None), K),
              ("chain", ("chain", X, D0), Y), ("join", ("chain", D0, D0), Z, None), ("dedup", ("join", ("chain", X, D0), Z, None)),
              ("join", ("chain", X, D0), ("leaf", "I"), None), ("join", ("sel", ("chain", X, D0), K), Z, ("plit", False))]
+    G = ("gt", ("ref", "b"), ("lit", "$k1"))
+    F, T = ("plit", False), ("plit", True)
+    preds = [("or", G, F), ("or", G, ("not", T)), ("and", ("or", G, F), K), ("not", ("or", G, F)), ("or", F, G), ("and", K, ("or", F, F)),
+             ("not", ("and", K, T)), ("or", ("and", K, F), G), ("and", ("not", F), K), ("or", K, ("and", T, F))]
+    for pr in preds:
+        progs += [("sel", X, pr), ("slice", ("sel", X, pr), 0, 1), ("chain", ("sel", X, pr), D0), ("join", X, Z, pr)]
     n = 2 if tier == "quick" else 3
-    return [{"eng": "sq", "prog": p, "params": ({"$k1": [None, None]} if "$k1" in repr(p) else {}), "cons": [], "n": n, "labels": ["nested"]}
+    return [{"eng": ("it1" if "join" not in repr(p) else "sq"), "prog": p, "params": ({"$k1": [None, None]} if "$k1" in repr(p) else {}), "cons": [], "n": n, "labels": ["nested"]}
             for p in progs]
 
 
